@@ -414,3 +414,37 @@ def plan_tours(dump_file, state_key, op_of, init_of, max_tours=None, rnd=None):
         rnd.shuffle(tours)
         tours = tours[:max_tours]
     return tours, {"transitions_dumped": n, "graph_states": len(queue), "state_op_pairs": npairs, "tours": len(tours)}
+
+
+# ---- replay: re-validate a recorded violation artefact against the current specification -------------------
+REPLAY = {  # property -> (trace module, cfg text)
+}
+
+
+def replay(ctx, path, module, cfg):
+    """Re-validates the events stored in a replay artefact with TLC and prints where the specification rejects them.
+    (The artefact also holds what is needed to re-run the real code by hand: operation sequence, argv, scenario.)"""
+    d = json.load(open(path))
+    if isinstance(d, dict) and "events" in d:
+        evs = d["events"]
+    elif isinstance(d, dict) and "event" in d:
+        evs = [d["event"]]
+    else:
+        evs = [d]
+    evs = [e for e in evs if isinstance(e, dict)]
+    if not evs:
+        print("REPLAY: the artefact holds no recorded events (see its text)")
+        return 0
+    p = os.path.join(ctx.work, "replay.ndjson")
+    with open(p, "w") as f:
+        for e in evs:
+            e.setdefault("tr", 1)
+            e["tr"] = 1
+            f.write(json.dumps(e, separators=(",", ":")) + "\n")
+    ok, rej = ctx.validate_traces(p, module, cfg, shards=1)
+    if rej:
+        r = rej[0]
+        print("REPLAY: rejected by %s at event %d of %d (%s): %s" % (module, r["at"], len(evs), r["why"], r["trace"][r["at"] - 1][:600]))
+        return 1
+    print("REPLAY: the recorded events are accepted by %s (%d events)" % (module, len(evs)))
+    return 0
